@@ -254,8 +254,15 @@ pub fn check(sc: &ConnScenario, out: &ConnOutcome, rep: &mut RunReport) {
     }
 }
 
+/// A single connection over the simulated pipe, or several players through one real `Listener`.
+#[derive(Clone, Debug, serde::Serialize, serde::Deserialize, PartialEq)]
+pub enum C03Sc {
+    Conn(Box<ConnScenario>),
+    Listener(Box<crate::net::NetScenario>),
+}
+
 impl Check for C03 {
-    type Sc = ConnScenario;
+    type Sc = C03Sc;
     fn id(&self) -> &'static str {
         "C03"
     }
@@ -263,7 +270,7 @@ impl Check for C03 {
         "exploration"
     }
     fn rule_text(&self) -> String {
-        "random routing scenarios: 0-9 discovered targets (IPv4/IPv6, any port, exact duplicates, same id with another address, metadata), filter outcome (identity, subset, shuffle, empty, foreign list, error), strategy outcome (first, index in or out of range, unlisted target, none, error), service latencies up to 40 s (so keep-alives interleave), 12 client locale strings against random localisation tables (8 possible locale keys, plain and compound messages, missing keys). Non-trivial = the run reached the selection stage or a service failed; distinct = distinct event-order trace hash.".into()
+        "7 of 8 evaluations - random routing scenarios: 0-9 discovered targets (IPv4/IPv6, any port, exact duplicates, same id with another address, metadata), filter outcome (identity, subset, shuffle, empty, foreign list, error), strategy outcome (first, index in or out of range, unlisted target, none, error), service latencies up to 40 s (so keep-alives interleave), 12 client locale strings against random localisation tables (8 possible locale keys, plain and compound messages, missing keys). 1 of 8 evaluations - listener mode: 2-14 players log in through one real Listener within a second or two (some at the same instant, PROXY protocol on or off, half of the returning ones with a genuine cookie), every discovery call returns a list of its own and the strategy picks by player; each connection's filters must be offered the answer of a discovery call nobody else got, its strategy the output of its filters, its Transfer and issued cookie the target chosen for this player. Non-trivial = the run reached the selection stage or a service failed; distinct = distinct event-order trace hash.".into()
     }
     fn assumptions(&self) -> Vec<String> {
         vec![
@@ -272,7 +279,7 @@ impl Check for C03 {
         ]
     }
     fn components(&self) -> Value {
-        json!({"real": ["Connection::listen", "FixedLocalizationAdapter (behind a recorder)", "configuration packets codec (Transfer, Disconnect, Store Cookie)"], "stub": ["transport", "client", "discovery/filter/strategy/auth services"]})
+        json!({"real": ["Connection::listen", "Listener::listen / handle (listener mode)", "FixedLocalizationAdapter (behind a recorder)", "configuration packets codec (Transfer, Disconnect, Store Cookie)"], "stub": ["transport", "client", "discovery/filter/strategy/auth services"]})
     }
     fn count(&self, tier: Tier) -> u64 {
         match tier {
@@ -280,10 +287,14 @@ impl Check for C03 {
             Tier::Thorough => 5_000_000,
         }
     }
-    fn generate(&self, rng: &mut Rng, _index: u64, _tier: Tier) -> ConnScenario {
-        generate(rng)
+    fn generate(&self, rng: &mut Rng, index: u64, _tier: Tier) -> C03Sc {
+        if index % 8 == 7 { C03Sc::Listener(Box::new(super::swarm::generate(rng))) } else { C03Sc::Conn(Box::new(generate(rng))) }
     }
-    fn execute(&self, sc: &ConnScenario) -> RunReport {
+    fn execute(&self, sc: &C03Sc) -> RunReport {
+        let sc: &ConnScenario = match sc {
+            C03Sc::Conn(c) => c,
+            C03Sc::Listener(n) => return super::swarm::execute(n, false, true),
+        };
         if !conn_domain_ok(sc) || !matches!(sc.client.intent, 2 | 3) || sc.client.script.is_some() || !sc.client.mutations.is_empty() || !matches!(sc.client.enc, crate::client::EncVariant::Honest) || !sc.client.send_info {
             return RunReport::default();
         }
